@@ -10,3 +10,5 @@ import GstVerif.LinAlg.Mat
 import GstVerif.LinAlg.Driver
 import GstVerif.Krig.Model
 import GstVerif.Krig.Driver
+import GstVerif.Rng.Model
+import GstVerif.Rng.Driver
